@@ -248,6 +248,28 @@ def tokenScript (fixed : Bool) (c : TCfg) (s : Store) (now requested : Nat) : Op
     | none => none
     | some s2 => some (s2, allowed)
 
+/-! ### tokenscript.lua on arguments nothing validates
+
+`rate`, `burst`, `n` are Go `int`s; `NewTokenLimiter` and `AllowN` accept any value (`rate = 0` panics in the
+constructor: `time.Second/time.Duration(rate)`).  What the script then does, on integers, for keys that have
+not expired: a negative `n` is granted whenever `filled ≥ n` and ADDS `-n` tokens (the stored value may exceed
+`capacity`; the next call caps it again with `math.min`); a negative `rate` makes the bucket lose `|rate|`
+tokens per second; a negative `capacity` never grants a request `n ≥ 0`.  Outside the property's quantifier
+(naturals); modelled only to state exactly what happens, checked line by line against the real code. -/
+
+structure ZBucket where
+  tok : Option Int
+  ts  : Option Int
+  deriving Repr, DecidableEq
+
+/-- `math.max(1, math.floor(capacity/rate*2))` (floor division) -/
+def ttlZ (rate cap : Int) : Int := max 1 (Int.fdiv (2 * cap) rate)
+
+def tokenScriptZ (rate cap now req : Int) (b : ZBucket) : ZBucket × Bool :=
+  let filled := min cap (b.tok.getD cap + max 0 (now - b.ts.getD 0) * rate)
+  let allowed := decide (req ≤ filled)
+  (⟨some (if allowed then filled - req else filled), some now⟩, allowed)
+
 /-! ## the rescue limiter (golang.org/x/time/rate, exact arithmetic) -/
 
 /-- `time.Second / time.Duration(rate)` in ns. -/
